@@ -30,6 +30,7 @@ fn plan(prop: &str, tier: Tier) -> Option<Plan> {
     let (spaces, (rule, bounds, assumptions)) = match prop {
         "C20" => (checks::c20::spaces(tier), checks::c20::meta(tier)),
         "C01" => (checks::c01::spaces(tier), checks::c01::meta(tier)),
+        "C02" => (checks::c02::spaces(tier), checks::c02::meta(tier)),
         "C03" => (checks::c03::spaces(tier), checks::c03::meta(tier)),
         "C04" => (checks::c04::spaces(tier), checks::c04::meta(tier)),
         "C05" => (checks::c05::spaces(tier), checks::c05::meta(tier)),
